@@ -5,9 +5,11 @@ package main
 // tokens>` or `ERR`.
 
 import (
+	"encoding/hex"
 	"fmt"
 	"strings"
 
+	"github.com/mithrandie/csvq/lib/option"
 	"github.com/mithrandie/csvq/lib/parser"
 	"github.com/mithrandie/csvq/lib/value"
 	"github.com/mithrandie/ternary"
@@ -28,12 +30,128 @@ var opBin = []string{"OR", "AND", "=", "==", "<", "<=", ">", ">=", "<>", "!=", "
 var opPre = []string{"NOT", "!", "-", "+"}
 var opLit = []string{"NULL", "TRUE", "FALSE", "UNKNOWN"}
 
+// ---------- literal words: a string literal is the word '<hex of its content>, a back-quoted identifier `<hex> ----------
+// (no blank inside a word; the program text carries option.QuoteString / QuoteIdentifier of the content)
+
+// white space a printer must keep inside a literal: runs of blanks, tab, line breaks, NEL, no-break space, ideographic
+// space, EM space - at the start, in the middle and at the end of the content
+var litBlanks = []string{"  ", "   ", " ", "\t", "\n", "\r\n", "\u0085", "\u00a0", "\u3000", "\u2003", " \u3000 ", "\t\t", " \u00a0"}
+var litPieces = []string{"a", "b", "é", "x1", "'", "`", "\\", "\"", "--", "/*", "1", "%", "_", "AND", "(", ")", ",", "名"}
+
+// the names of the weird columns of table xt (lbl.go): quoted identifiers that evaluate
+var quotedColumns = []string{"y  z", "y\u3000z", "y\u00a0z", " y", "y\tz", "y z"}
+
+// op c18.lbl narrows the vocabulary to what table xt and the declared functions have, so that most items evaluate
+var opIdentMax = 10
+var opQuotedColumnsOnly = false
+var opFuncNames = []string{"x0", "x1", "x2", "x3", "x4", "x5", "x6", "x7", "x8", "x9"}
+
+func genLitContent(g *hc.Gen) string {
+	var b strings.Builder
+	for k := g.Intn(4); k >= 0; k-- {
+		switch g.Intn(5) {
+		case 0, 1:
+			b.WriteString(litBlanks[g.Intn(len(litBlanks))])
+		default:
+			b.WriteString(litPieces[g.Intn(len(litPieces))])
+		}
+	}
+	return b.String()
+}
+
+func strWord(content string) string { return "'" + hex.EncodeToString([]byte(content)) }
+func qidWord(content string) string { return "`" + hex.EncodeToString([]byte(content)) }
+
+func isLitWord(w string) bool { return w != "" && (w[0] == '\'' || w[0] == '`') }
+
+func litContent(w string) string {
+	b, _ := hex.DecodeString(w[1:])
+	return string(b)
+}
+
+// wordText: the program text of one word
+func wordText(w string) string {
+	if isLitWord(w) {
+		if w[0] == '\'' {
+			return option.QuoteString(litContent(w))
+		}
+		return option.QuoteIdentifier(litContent(w))
+	}
+	return w
+}
+
+func wordsText(ws []string) string {
+	out := make([]string, len(ws))
+	for i, w := range ws {
+		out[i] = wordText(w)
+	}
+	return strings.Join(out, " ")
+}
+
+// renderLiterals: a text whose only quote characters begin literal words -> the program text
+func renderLiterals(s string) string {
+	var b strings.Builder
+	for i := 0; i < len(s); i++ {
+		if s[i] != '\'' && s[i] != '`' {
+			b.WriteByte(s[i])
+			continue
+		}
+		j := i + 1
+		for j < len(s) && (s[j] >= '0' && s[j] <= '9' || s[j] >= 'a' && s[j] <= 'f') {
+			j++
+		}
+		b.WriteString(wordText(s[i:j]))
+		i = j - 1
+	}
+	return b.String()
+}
+
+func literalWords(ws []string) []string {
+	var out []string
+	for _, w := range ws {
+		if isLitWord(w) {
+			out = append(out, w)
+		}
+	}
+	return out
+}
+
+// tokenWord: a token of the real scanner as a word of the op line ("" = none)
+func tokenWord(t parser.Token) string {
+	switch {
+	case t.Token == parser.STRING:
+		return strWord(t.Literal)
+	case t.Token == parser.IDENTIFIER && t.Quoted:
+		return qidWord(t.Literal)
+	}
+	return ""
+}
+
+func genOpAtom(g *hc.Gen) *opNode {
+	if opIdentMax == 0 {
+		// constants only
+		if g.Intn(2) == 0 {
+			return &opNode{kind: 'a', word: strWord(genLitContent(g))}
+		}
+		return &opNode{kind: 'a', word: fmt.Sprint(g.Intn(10))}
+	}
+	switch g.Intn(8) {
+	case 0, 1:
+		return &opNode{kind: 'a', word: fmt.Sprint(g.Intn(10))}
+	case 2:
+		return &opNode{kind: 'a', word: strWord(genLitContent(g))}
+	case 3:
+		if opQuotedColumnsOnly || g.Intn(2) == 0 {
+			return &opNode{kind: 'a', word: qidWord(quotedColumns[g.Intn(len(quotedColumns))])}
+		}
+		return &opNode{kind: 'a', word: qidWord(genLitContent(g))}
+	}
+	return &opNode{kind: 'a', word: fmt.Sprintf("x%d", g.Intn(opIdentMax))}
+}
+
 func genOpTree(g *hc.Gen, d int) *opNode {
 	if d <= 0 || g.Intn(5) == 0 {
-		if g.Intn(3) == 0 {
-			return &opNode{kind: 'a', word: fmt.Sprint(g.Intn(10))}
-		}
-		return &opNode{kind: 'a', word: fmt.Sprintf("x%d", g.Intn(10))}
+		return genOpAtom(g)
 	}
 	switch g.Intn(16) {
 	case 10:
@@ -47,7 +165,7 @@ func genOpTree(g *hc.Gen, d int) *opNode {
 		}
 		return n
 	case 13:
-		n := &opNode{kind: 'f', word: fmt.Sprintf("x%d", g.Intn(10))}
+		n := &opNode{kind: 'f', word: opFuncNames[g.Intn(len(opFuncNames))]}
 		for k := g.Intn(4); k > 0; k-- {
 			n.args = append(n.args, genOpTree(g, d-2))
 		}
@@ -151,12 +269,18 @@ func shapeOf(e parser.QueryExpression) (string, bool) {
 	}
 	switch x := e.(type) {
 	case parser.FieldReference:
-		if id, ok := x.Column.(parser.Identifier); ok && x.View.Literal == "" && !id.Quoted {
+		if id, ok := x.Column.(parser.Identifier); ok && x.View.Literal == "" {
+			if id.Quoted {
+				return qidWord(id.Literal), true
+			}
 			return id.Literal, true
 		}
 	case parser.PrimitiveType:
 		if _, ok := x.Value.(*value.Integer); ok {
 			return x.Literal, true
+		}
+		if _, ok := x.Value.(*value.String); ok {
+			return strWord(x.Literal), true
 		}
 	case parser.Parentheses:
 		s, ok := shapeOf(x.Expr)
@@ -274,7 +398,7 @@ func shapeList(es []parser.QueryExpression) (string, bool) {
 
 // opxImpl: parse `SELECT <words>` with the real parser; shape of the field and the tokens of its String()
 func opxImpl(ws []string) string {
-	r := tryParse("SELECT "+strings.Join(ws, " "), false, false)
+	r := tryParse("SELECT "+wordsText(ws), false, false)
 	if r.panicked != nil || r.err != nil || len(r.stmts) != 1 {
 		return "ERR"
 	}
@@ -307,12 +431,15 @@ func opxImpl(ws []string) string {
 		if t.Token == tokEOF {
 			break
 		}
-		toks = append(toks, strings.ToUpper(t.Literal))
-	}
-	for i, t := range toks {
-		if len(t) > 0 && t[0] == 'X' {
-			toks[i] = strings.ToLower(t)
+		if w := tokenWord(t); w != "" {
+			toks = append(toks, w)
+			continue
 		}
+		w := strings.ToUpper(t.Literal)
+		if len(w) > 0 && w[0] == 'X' {
+			w = strings.ToLower(w)
+		}
+		toks = append(toks, w)
 	}
 	return shape + " " + strings.Join(toks, ",")
 }
@@ -348,12 +475,27 @@ func opxCase(o *hc.Out, ws []string) {
 		return
 	}
 	o.Case("c18.opx "+strings.Join(ws, " "), impl)
+	if parts := strings.SplitN(impl, " ", 2); len(parts) == 2 {
+		printedLiteralLaw(o, "SELECT "+wordsText(ws), ws, strings.Split(parts[1], ","))
+	}
 	if impl == "ERR" {
 		o.Count("opx.err")
 		o.NonTrivial("opx:err:" + strings.Join(ws, " "))
 	} else {
 		o.Count("opx.ok")
 		o.NonTrivial("opx:" + strings.SplitN(impl, " ", 2)[0])
+	}
+}
+
+// printedLiteralLaw: every string literal and quoted identifier of the program text is in the printed text byte for byte,
+// in the same order (the printers neither reorder operands nor touch the content of a literal)
+func printedLiteralLaw(o *hc.Out, text string, in, printed []string) {
+	a, b := literalWords(in), literalWords(printed)
+	if len(a) > 0 {
+		o.Count("literal.words_checked")
+	}
+	if strings.Join(a, " ") != strings.Join(b, " ") {
+		o.Law("printed_literal_differs", map[string]string{"text": text, "literals": strings.Join(a, " "), "printed_literals": strings.Join(b, " ")})
 	}
 }
 
